@@ -35,6 +35,7 @@ type c01Knobs struct {
 	dropW, dupW, reorderW, advW int
 	trickle                     bool
 	restart                     bool
+	natA, natB                  int // 0 none, else simnet.NATKind+1 (at most one side)
 }
 
 func drawC01Knobs(c *core.Ctx) c01Knobs {
@@ -57,9 +58,25 @@ func drawC01Knobs(c *core.Ctx) c01Knobs {
 	k.advW = []int{10, 20}[t.Choose(2, "advw")]
 	k.trickle = t.Bias(1, 2, "trickle")
 	k.restart = t.Bias(1, 4, "restart")
+	if t.Bias(1, 4, "nat") {
+		kind := 1 + t.Choose(4, "natkind")
+		if t.Bias(1, 2, "natside") && !k.liteB {
+			k.natB = kind
+		} else {
+			k.natA = kind
+		}
+	}
 	if k.liteB {
 		k.aliasB = false
 	}
+	if k.natA != 0 {
+		k.aliasA = false
+	}
+	if k.natB != 0 {
+		k.aliasB = false
+	}
+	c.Knob("natA", k.natA)
+	c.Knob("natB", k.natB)
 	c.Knob("nA", k.nA)
 	c.Knob("nB", k.nB)
 	c.Knob("aliasA", k.aliasA)
@@ -108,6 +125,7 @@ func runC01(c *core.Ctx) {
 			cfg.AliasB = "198.51.100.2"
 		}
 	}
+	cfg.NATA, cfg.NATB = k.natA, k.natB
 	d, err := rig.NewDuo(c, cfg)
 	if err != nil {
 		c.Failf("harness/setup", "%v", err)
@@ -163,6 +181,10 @@ func candIPs(a *rig.AgentH) []netip.Addr {
 	seen := map[netip.Addr]bool{}
 	for _, cand := range a.LocalCands() {
 		ip := rig.CandAP(cand).Addr()
+		if a.Host.NAT != nil {
+			// what the other side observes for any candidate of a NATed host is the NAT's public address
+			ip = a.Host.NAT.Public
+		}
 		if !seen[ip] {
 			seen[ip] = true
 			out = append(out, ip)
@@ -222,7 +244,7 @@ func (s *c01Session) checkSafety(anyBidir bool) {
 			}
 			continue
 		}
-		if ok && !d.Bidirectional(l.Addr(), r.Addr()) {
+		if ok && !d.Bidirectional(s.obs(ag, l.Addr()), s.obsPeer(ag, r.Addr())) {
 			c.Failf(s.pfx()+"/selected-unreachable-pair", "%s selected %v->%v which is not reachable in both directions", ag.Name, l, r)
 		}
 	}
@@ -436,8 +458,8 @@ func (s *c01Session) generation(gen int) {
 			c.Failf(s.pfx()+"/no-selected-pair", "Connected but selected pair missing: A=%v B=%v", oka, okb)
 			return
 		}
-		if la != rb || ra != lb {
-			c.Failf(s.pfx()+"/mirror-mismatch", "selected pairs are not mirror images: A=%v->%v B=%v->%v", la, ra, lb, rb)
+		if why := s.mirror(la, ra, lb, rb); why != "" {
+			c.Failf(s.pfx()+"/mirror-mismatch", "selected pairs are not mirror images (%s): A=%v->%v B=%v->%v", why, la, ra, lb, rb)
 			return
 		}
 		if !connected() {
@@ -445,6 +467,14 @@ func (s *c01Session) generation(gen int) {
 			return
 		}
 		c.Logf("converged A=%v->%v", la, ra)
+		if k.natA != 0 || k.natB != 0 {
+			c.Probe(fmt.Sprintf("converged-behind-nat-kind-%d", k.natA+k.natB))
+		}
+		for _, rc := range d.B.RemoteCands() {
+			if rig.CandAP(rc) == rb && rc.Type() == ice.CandidateTypePeerReflexive {
+				c.Probe("selected-remote-prflx")
+			}
+		}
 		lt, _ := typeOf(d.A, la), 0
 		c.Probe("selected-local-" + lt)
 	} else {
@@ -496,4 +526,64 @@ func (s *c01Session) restart() {
 		}
 	}
 	s.generation(s.gen + 1)
+}
+
+// obs maps an address of ag's own host to what the other side observes (NAT public address).
+func (s *c01Session) obs(ag *rig.AgentH, ip netip.Addr) netip.Addr {
+	if ag.Host.NAT != nil && ag.Host.Owns(ip) {
+		return ag.Host.NAT.Public
+	}
+	if ag.Host.NAT != nil {
+		for _, own := range ag.Host.IPs() {
+			if own == ip {
+				return ag.Host.NAT.Public
+			}
+		}
+	}
+	return ip
+}
+
+// obsPeer maps a remote address as seen by ag (it already is an observed address).
+func (s *c01Session) obsPeer(_ *rig.AgentH, ip netip.Addr) netip.Addr { return ip }
+
+// sockOf finds the socket behind a local candidate address of ag.
+func (s *c01Session) sockOf(ag *rig.AgentH, local netip.AddrPort) *simnet.Sock {
+	for _, cand := range ag.LocalCands() {
+		if rig.CandAP(cand) != local {
+			continue
+		}
+		if cand.Type() == ice.CandidateTypeHost {
+			return ag.Host.FindSock(local)
+		}
+		if ra := cand.RelatedAddress(); ra != nil {
+			return ag.Host.SockByPort(uint16(ra.Port))
+		}
+	}
+	return nil
+}
+
+// mirror: each side's selected local transport address is the address the other side selected as remote,
+// modulo the NAT mapping in between. Returns "" when the two selections are mirror images.
+func (s *c01Session) mirror(la, ra, lb, rb netip.AddrPort) string {
+	d := s.d
+	sa, sb := s.sockOf(d.A, la), s.sockOf(d.B, lb)
+	if sa == nil || sb == nil {
+		if la != rb || ra != lb {
+			return "addresses differ"
+		}
+		return ""
+	}
+	obsA, okA := d.W.ObservedSrc(sa, ra)
+	obsB, okB := d.W.ObservedSrc(sb, rb)
+	switch {
+	case !okA || obsA != rb:
+		return fmt.Sprintf("B selected remote %v but observes A's selected local socket as %v", rb, obsA)
+	case !okB || obsB != ra:
+		return fmt.Sprintf("A selected remote %v but observes B's selected local socket as %v", ra, obsB)
+	case d.W.RouteOf(obsA, ra) != sb:
+		return fmt.Sprintf("A's selected remote %v does not lead to B's selected local socket", ra)
+	case d.W.RouteOf(obsB, rb) != sa:
+		return fmt.Sprintf("B's selected remote %v does not lead to A's selected local socket", rb)
+	}
+	return ""
 }
